@@ -5,6 +5,7 @@ import random
 
 from harness import projgen, tlc
 from harness.checks import scan_common as sc
+from harness.checks import wild_common as wc
 from harness.result import CheckResult
 
 ASSUMPTIONS = [
@@ -55,11 +56,14 @@ def run(ctx):
         p = projgen.random_project(rng, max_depth=rng.choice([2, 3, 4, 5]), odd=rng.random() < 0.3,
                                    externals=rng.random() < 0.5, rel_abs=True)
         specs.append(episode_for(p, rng))
+    # real source trees found on this machine (harness/wild.py), abstracted independently of pytestarch
+    wspecs, wtrees = wc.specs(ctx, random.Random(ctx.seed * 7919 + 100), "C04")
+    specs += wspecs
     tr, episodes, fails = sc.run_and_validate(specs)
     st = sc.stats(episodes)
     if not st["law_instances"].get("restrict") or not st["law_instances"].get("entry"):
         raise tlc.MachineryError(f"vacuous or erroneous run: {st}")
-    cov = {"states": mc.distinct + tr.states, "transitions": mc.generated + tr.transitions,
+    cov = {"real_source_trees": wtrees, "states": mc.distinct + tr.states, "transitions": mc.generated + tr.transitions,
            "model_states": mc.distinct, "model_transitions": mc.generated,
            "traces_validated_against_impl": len(episodes), "trace_events": tr.events,
            "emitted_projects": len(projects), "random_projects": n_rand, **st,
